@@ -24,9 +24,10 @@ TWrite == Step(Ev.op = "Write" /\ Write(Ev.k) /\ Observed)
 TRead  == Step(Ev.op = "Read" /\ Ev.from = squeezed /\ Read(Ev.k) /\ Observed)
 TSum   == Step(Ev.op = "Sum" /\ Sum /\ Observed)
 TReset == Step(Ev.op = "Reset" /\ Reset /\ Observed)
+TClob  == Step(Ev.op = "Clobber" /\ Clobber /\ Observed)
 
 TraceInit == Init /\ l = 1
-TraceNext == TWrite \/ TRead \/ TSum \/ TReset
+TraceNext == TWrite \/ TRead \/ TSum \/ TReset \/ TClob
 TraceSpec == TraceInit /\ [][TraceNext]_<< vars, l >>
 
 TraceAccepted == TLCGet("stats").diameter - 1 = Len(Trace)
